@@ -6,7 +6,8 @@ from .. import x as X
 NAME_POOL = ["bob", "bob-x", "bob.x", "bob+x", "alice", "Al", "Al_1", "x", "x_y", "dagger", "o0", "Zed", "a", "rig_b", "rig",
              "char", "WORK", "hamlet", "v001", "007", "BOB", "PROD", "OUTPUT", "w"]
 PLAIN_NAMES = ["bob", "alice", "dagger", "Zed", "o0", "a"]
-VERSION_NUMS = [0, 1, 2, 3, 9, 10, 99, 100, 998, 999]
+VERSION_NUMS = [0, 1, 2, 3, 9, 10, 11, 99, 100, 101, 127, 128, 129, 255, 256, 511, 512, 998, 999]
+CROWD_NAMES = ["n%03d" % i for i in range(110)] + ["a_very_long_asset_name_of_more_than_forty_characters_x"]
 ATTR_KEYS = ["comment", "author", "frames", "ok", "tags", "meta"]
 
 
@@ -51,9 +52,11 @@ class Profile:
 class Vocab:
     """Draws concrete values for template keys from the introspected patterns."""
 
-    def __init__(self, model, names=None, allow_dot=True):
+    def __init__(self, model, names=None, allow_dot=True, crowd=False):
         self.m = model
         self.names = list(names or NAME_POOL)
+        if crowd:
+            self.names = self.names + CROWD_NAMES   # many siblings in one directory / long result lists
         if not allow_dot:
             self.names = [n for n in self.names if "." not in n]
         self.alias_names = set(model.alias)
@@ -143,7 +146,9 @@ def gen_data(rng, nmax=3, keys=ATTR_KEYS, big=False):
     n = rng.randint(1, nmax)
     d = {k: gen_value(rng) for k in rng.sample(keys, n)}
     if big:
-        d["blob"] = "".join(rng.choice("abcdefghij \n\"{}") for _ in range(rng.randint(300, 900)))
+        # beyond one, and sometimes beyond several, 8 KB buffers
+        size = rng.choice([rng.randint(300, 900), rng.randint(8000, 9000), rng.randint(16000, 70000), rng.randint(66000, 140000)])
+        d["blob"] = "".join(rng.choice("abcdefghij \n\"{}") for _ in range(size))
     return d
 
 
